@@ -3,7 +3,7 @@
 N=${1:-10}
 cd /verif
 for p in C10 C13 C17 C18 C09; do
-  for sd in $(seq 101 $((100+N))); do
+  B=${2:-101}; for sd in $(seq $B $((B+N-1))); do
     out=$(./check $p --tier quick --no-evidence --seed=$sd 2>&1); rc=$?
     echo "$p seed=$sd exit=$rc $(echo "$out" | grep -E '^VIOLATION|^HARNESS' | head -2 | cut -c1-200)"
   done
